@@ -126,12 +126,15 @@ def _mode_table_form(mod: ast.Module, stmts: List[ast.stmt], ext_var: str):
     if not (isinstance(guard, ast.If) and not guard.orelse and isinstance(guard.test, ast.Compare) and
             len(guard.test.ops) == 1 and isinstance(guard.test.ops[0], ast.NotIn) and
             isinstance(guard.test.left, ast.Name) and guard.test.left.id == ext_var and
-            isinstance(guard.test.comparators[0], ast.Name)):
+            isinstance(guard.test.comparators[0], (ast.Name, ast.Dict))):
         return None
-    table = guard.test.comparators[0].id
     if not (isinstance(ret, ast.Return) and isinstance(ret.value, ast.Subscript) and
-            isinstance(ret.value.value, ast.Name) and ret.value.value.id == table and
+            isinstance(ret.value.value, ast.Name) and
             isinstance(ret.value.slice, ast.Name) and ret.value.slice.id == ext_var):
+        return None
+    table = ret.value.value.id
+    g = guard.test.comparators[0]
+    if isinstance(g, ast.Name) and g.id != table:
         return None
     defs = [n for n in mod.body if isinstance(n, ast.Assign) and len(n.targets) == 1 and
             isinstance(n.targets[0], ast.Name) and n.targets[0].id == table]
@@ -147,6 +150,8 @@ def _mode_table_form(mod: ast.Module, stmts: List[ast.stmt], ext_var: str):
                 isinstance(n.ctx, (ast.Store, ast.Del)):
             _fail(n, f'{table} is written to')
     d = defs[0].value
+    if isinstance(g, ast.Dict) and ast.dump(g) != ast.dump(d):     # (the table's literal, after constant propagation)
+        _fail(guard, f'the membership test is not on {table}')
     keys = [_str(k) for k in d.keys]
     if len(set(keys)) != len(keys):
         _fail(d, f'duplicate key in {table}')
